@@ -138,16 +138,22 @@ def _inline_self_accessor(fn, callee_id, args, depth):
     `fn latest_stored_block_number(&self) -> Option<u64> { self.cache.keys().next_back().copied() }`) is read as the
     expression it returns, with `self` substituted: extracting such an accessor, or inlining one, leaves every origin term
     unchanged.  Methods with control flow, with further parameters, trait methods and constructors are left as calls."""
-    if not INLINE_ACCESSORS or callee_id is None or depth > 30 or len(args) != 1:
+    if not INLINE_ACCESSORS or callee_id is None or depth > 30:
         return None
     F = getattr(fn, "facts", None)
     if F is None:
         return None
     g = F.fns.get(callee_id)
-    if g is None or not g.blocks or g.kind != "method" or g.j.get("trait") or g.j.get("in_trait") or g.id == fn.id:
+    if g is None or not g.blocks or g.kind not in ("method", "fn") or g.j.get("trait") or g.j.get("in_trait") or g.id == fn.id:
         return None
-    if (g.j.get("param_names") or [None])[0] != "self" or g.j["mir"]["argc"] != 1:
+    if g.j["mir"]["argc"] != len(args):
         return None
+    self_only = g.kind == "method" and (g.j.get("param_names") or [None])[0] == "self" and g.j["mir"]["argc"] == 1
+    if not self_only:
+        # beyond `&self` accessors: only private, non-anchor helpers (what an extract-function refactoring creates)
+        from facts import is_private_helper
+        if not is_private_helper(g):
+            return None
     key = g.id
     if key not in _ACCESSOR_TERMS:
         _ACCESSOR_TERMS[key] = None
